@@ -45,8 +45,11 @@ type C20Trip struct {
 }
 
 type CaseC20 struct {
+	vt.Env
 	Trips []C20Trip
 	Zone  string // presentation zone of the time values (must not matter)
+	// SubSec nanoseconds are added to every time value: the tables carry Unix seconds, i.e. time.Time.Unix() of the value
+	SubSec int64 `json:",omitempty"`
 }
 
 var c20Rec = vt.NewRecorder("C20", "TestC20",
@@ -90,6 +93,7 @@ func genC20OptTime(t *rapid.T, label string) *int64 {
 
 func genC20(t *rapid.T) (c CaseC20) {
 	c.Zone = rapid.SampledFrom([]string{"UTC", "America/New_York", "Asia/Kathmandu", "fixed"}).Draw(t, "zone")
+	c.SubSec = rapid.SampledFrom([]int64{0, 0, 0, 1, 499_999_999, 500_000_000, 750_000_000, 999_999_999}).Draw(t, "subSecond")
 	n := rapid.IntRange(0, 8).Draw(t, "numTrips")
 	if rapid.IntRange(0, 24).Draw(t, "sizeClass") == 0 {
 		n = rapid.SampledFrom([]int{17, 33, 70, 130, 260, 520, 1025, 1030, 2050, 2100, 4100, 4101}).Draw(t, "manyTrips")
@@ -174,7 +178,7 @@ func c20Loc(zone string) *time.Location {
 
 func c20Build(c CaseC20) *journal.Journal {
 	loc := c20Loc(c.Zone)
-	tm := func(u int64) time.Time { return time.Unix(u, 0).In(loc) }
+	tm := func(u int64) time.Time { return time.Unix(u, c.SubSec).In(loc) }
 	otm := func(u *int64) *time.Time {
 		if u == nil {
 			return nil
@@ -352,6 +356,9 @@ func c20Classify(c CaseC20) (classes []string, nontrivial bool) {
 	if len(c.Trips) == 0 {
 		classes = append(classes, "empty-journal")
 	}
+	if c.SubSec != 0 {
+		classes = append(classes, "sub-second-times")
+	}
 	if len(c.Trips) >= 2 {
 		classes = append(classes, "multi-trip")
 	}
@@ -374,6 +381,7 @@ func c20Classify(c CaseC20) (classes []string, nontrivial bool) {
 func TestC20(t *testing.T) {
 	rapid.Check(t, func(t *rapid.T) {
 		c := genC20(t)
+		c.Env = genEnv(t)
 		classes, nt := c20Classify(c)
 		c20Rec.Eval(classes...)
 		if nt {
